@@ -384,6 +384,17 @@ func judgeAcc(w *core.W, c *accCase) {
 	w.Sample(func() interface{} { return map[string]interface{}{"case": c, "class": cls} })
 }
 
+// c18Derived: cookie names spelled around n.
+func c18Derived(n string) []string {
+	out := []string{"__Host-" + n, "__Secure-" + n, "__Http-" + n, "__host-" + n, "$" + n, n + "[]", n + ".sig", "_" + n}
+	for _, p := range []string{"__Host-", "__Secure-", "__Http-", "$", "_"} {
+		if strings.HasPrefix(n, p) {
+			out = append(out, n[len(p):])
+		}
+	}
+	return out
+}
+
 func isASCII(s string) bool {
 	for i := 0; i < len(s); i++ {
 		if s[i] >= 0x80 || s[i] < 0x20 {
@@ -442,6 +453,24 @@ func judgeCookie(w *core.W, c *cookieCase) {
 		}
 		if m2 := ctx.Cookie(strings.ToUpper(c.Name) + "X"); m2 != "" {
 			missing = m2
+		}
+		// names a client did not send, spelled around the ones it did send (the prefixes of RFC 6265bis, attribute-like
+		// and array-like spellings): absent is absent
+		sentNames := append([]string{c.Name, "other"}, c.Sib...)
+		for _, n := range sentNames {
+			for _, d := range c18Derived(n) {
+				isSent := false
+				for _, m := range sentNames {
+					isSent = isSent || m == d
+				}
+				if d == "" || isSent {
+					continue
+				}
+				w.Count("cookie-absent-reads-of-related-names")
+				if v := ctx.Cookie(d); v != "" && missing == "" {
+					missing = fmt.Sprintf("%s (asked for %q; the request carries %q)", v, d, n)
+				}
+			}
 		}
 		if c.Extra && strings.ToUpper(c.Name) != c.Name {
 			if d := ctx.Cookie(strings.ToUpper(c.Name)); d != "decoy" {
@@ -572,7 +601,7 @@ func runC18(r *core.Run) {
 				b[j] = byte(rng.Intn(256))
 			}
 		}
-		c := &cookieCase{Name: []string{"n", "sess-id", "a.b", "session", "cart+items", "a!b", "x#y$z", "p%q", "m&n", "it's", "s*", "c^d", "b`t", "u|v", "t~_-."}[rng.Intn(15)], Value: core.B(b), Extra: rng.Intn(3) == 0}
+		c := &cookieCase{Name: []string{"n", "sess-id", "a.b", "session", "cart+items", "a!b", "x#y$z", "p%q", "m&n", "it's", "s*", "c^d", "b`t", "u|v", "t~_-.", "__Host-sess", "__Secure-id", "_ga"}[rng.Intn(18)], Value: core.B(b), Extra: rng.Intn(3) == 0}
 		if rng.Intn(6) == 0 {
 			c.Attr = []string{"domain-port", "domain-scheme", "path-semicolon", "expires-1500", "partitioned-insecure", "samesite-none"}[rng.Intn(6)]
 		}
@@ -584,7 +613,7 @@ func runC18(r *core.Run) {
 		w.Begin("cookie", c)
 		judgeCookie(w, c)
 	})
-	for _, k := range []string{"class:absent", "class:empty", "class:well-formed-int", "class:well-formed-float", "class:well-formed-bool", "class:malformed", "class:out-of-range", "class:needs-escaping", "multi-valued", "form-body-parsed-before-reading", "cookie-class:empty", "cookie-class:plain", "cookie-class:separators", "cookie-class:non-ascii-or-control", "cookie-with-related-names", "cookie-with-odd-attributes", "body-read:unknown", "body-read:exact", "body-read:none"} {
+	for _, k := range []string{"class:absent", "class:empty", "class:well-formed-int", "class:well-formed-float", "class:well-formed-bool", "class:malformed", "class:out-of-range", "class:needs-escaping", "multi-valued", "form-body-parsed-before-reading", "cookie-class:empty", "cookie-class:plain", "cookie-class:separators", "cookie-class:non-ascii-or-control", "cookie-with-related-names", "cookie-absent-reads-of-related-names", "cookie-with-odd-attributes", "body-read:unknown", "body-read:exact", "body-read:none"} {
 		r.GateCounter(k, 20)
 	}
 	r.GateCounter("cookie-single-bytes", 256)
